@@ -46,10 +46,11 @@ const (
 	aIdleOK   // a section restored the idle window state at an expiry
 	aR        // read lock held
 	aClosedF  // the closed flag was observed false in the current write-lock section
+	aWinMoved // the window was re-armed / its length or factor changed in the current section
 	aHeld     // the entry point being explored holds its own count in the wait group (registered, Done deferred)
 )
 
-const aIterBits = aCaseIn | aCaseExp | aFirst | aCapPath | aArmedInit | aFlagT | aFlagF | aTimerNil | aCurInit | aBfOne | aSectionDone | aExpOK | aFirstOK | aCapOK | aArmedBad | aIdleOK
+const aIterBits = aWinMoved | aCaseIn | aCaseExp | aFirst | aCapPath | aArmedInit | aFlagT | aFlagF | aTimerNil | aCurInit | aBfOne | aSectionDone | aExpOK | aFirstOK | aCapOK | aArmedBad | aIdleOK
 
 // per pending-load bits in PState.B
 const (
@@ -471,10 +472,15 @@ func (a *c09Acct) sectionEnd(st PState, at ssa.Instruction) PState {
 			a.diag["first"] = strings.Join(miss, ", ")
 		}
 	}
-	if st.A&aCaseIn != 0 && st.A&aCapPath != 0 {
-		if zero {
-			st.A |= aCapOK
-		}
+	if st.A&aCaseIn != 0 && st.A&aCapPath != 0 && zero {
+		st.A |= aCapOK
+	}
+	if st.A&aCapPath != 0 {
+		// a token that fires on the cap is signalled at once and leaves nothing pending: it must not move the end of
+		// the open window (re-arm the timer / grow the window), or the limiter stays non-idle past the window's end
+		// and the next first Add is delayed instead of being signalled immediately
+		a.note("C09.L7-handlers", k.fname(a.root)+" cap leaves window", a.pos(at), "the cap path fires without re-arming or growing the open window",
+			"on the path where the pending-events cap is reached the handler fires AND re-arms/grows the open window (e.g. a missing return after the fire): the window is prolonged although nothing is pending, so the limiter is not idle when its window should have ended and the next first Add is not signalled immediately", st.A&aWinMoved != 0)
 	}
 	inc, tok := st.A&aInc != 0, st.A&aTok != 0
 	if inc != tok {
@@ -617,6 +623,7 @@ func (a *c09Acct) instr(pf *PathFlow, in ssa.Instruction, replay bool, st PState
 				}
 			case k.fCur:
 				st.A &^= aCurInit
+				st.A |= aWinMoved
 				if !s.zero {
 					if t := k.term(pf, s.val); t.kind == 2 && t.field == k.fInit {
 						st.A |= aCurInit
@@ -649,7 +656,7 @@ func (a *c09Acct) instr(pf *PathFlow, in ssa.Instruction, replay bool, st PState
 			case opLock:
 				st = c09ClearKnowledge(st)
 				st.A |= aW
-				st.A &^= aInc | aTok | aClosedF
+				st.A &^= aInc | aTok | aClosedF | aWinMoved
 			case opUnlock:
 				if st.A&aW != 0 {
 					st = a.sectionEnd(st, in)
@@ -674,6 +681,9 @@ func (a *c09Acct) instr(pf *PathFlow, in ssa.Instruction, replay bool, st PState
 				st.A |= aFlagF
 			}
 			return one(st)
+		}
+		if k.isTimerInvoke(pf, x, "Reset") {
+			st.A |= aWinMoved
 		}
 		if k.isTimerInvoke(pf, x, "Reset") && len(x.Common().Args) == 1 && st.A&aFirst != 0 {
 			// a reused timer re-armed for the first window
